@@ -65,6 +65,30 @@ let tstack args =
        | _ -> "BAD-ARGS")
   | _ -> "BAD-ARGS"
 
+(* the calls that reach a native parent: same case line as tstack (kind ignored) *)
+let scall (c : call) : string =
+  match c with
+  | DrawIter ps -> "D " ^ list_out (fun (p, c) -> z_out p.px ^ ":" ^ z_out p.py ^ ":" ^ z_out c) ps
+  | FillContiguous (r, cs) ->
+      let n = BinInt.Z.to_nat (BinInt.Z.mul r.sz.sw r.sz.sh) in
+      "F " ^ src r ^ " " ^ list_out z_out (stake n cs)
+  | FillSolid (r, c) -> "S " ^ src r ^ " " ^ z_out c
+  | Clear c -> "K " ^ z_out c
+
+let tcalls args =
+  match args with
+  | _ :: x :: y :: w :: h :: nad :: t ->
+      let bb = rc x y w h in
+      let (ads_inner_first, t) = parse_ads (int_of_string nad) t [] in
+      (match t with
+       | nops :: t ->
+           let (ops, _) = parse_ops (int_of_string nops) t [] in
+           let st = Stdlib.List.rev ads_inner_first in
+           let calls = Stdlib.List.concat (Stdlib.List.map (fun op -> lower st bb op) ops) in
+           Stdlib.String.concat " ; " (Stdlib.List.map scall calls)
+       | _ -> "BAD-ARGS")
+  | _ -> "BAD-ARGS"
+
 (* the Cropped colour iterator alone:  tcrop <w> <h> <crop x y w h> L n c*n | I c <take>  *)
 let tcrop args =
   match args with
@@ -77,4 +101,5 @@ let tcrop args =
 
 let init () =
   register "tstack" tstack;
+  register "tcalls" tcalls;
   register "tcrop" tcrop
